@@ -70,12 +70,22 @@ def check(spec):
     s, m, h = spec["seed"], spec["m"], spec["h"]
     inputs = [treg.make_input(fam, spec["key"] + i) for i in range(m)]
     def _build():
+        try:
+            return _build0()
+        except Exception as e:
+            if spec.get("factory") and not isinstance(e, (Violation, Refused)):
+                # the same description built fine without the factory (facets without it): the factory consumed / altered what it was given
+                raise Violation(f"factory-construction-raises:{type(e).__name__}", f"{t}: {e!r}"[:300])
+            raise
+
+    def _build0():
         if spec.get("late") and t["k"] == "compose" and len(t["m"]) >= 2:
             # the composition is assembled step by step: the last member is appended to the public list after construction
-            tr = treg.build({"k": "compose", "m": t["m"][:-1]})
-            tr.transforms.append(treg.build(t["m"][-1]))
+            tr = treg.build({"k": "compose", "m": t["m"][:-1]}, factory=bool(spec.get("factory")))
+            tr.transforms.append(treg.build(t["m"][-1], factory=bool(spec.get("factory"))))
             return tr
-        return treg.build(t)
+        # factory: the transform is described as configuration files describe it (kind-dicts, plain lists) and resolved by the factory
+        return treg.build(t, factory=bool(spec.get("factory")))
     # instance A: built under G1, used h times before the seed is injected
     _set_globals(spec["g1"])
     A = _build()
@@ -170,7 +180,7 @@ def _wrap(tstrat):
                                   "m": st.integers(1, 5), "h": st.integers(0, 3), "g1": st.integers(0, 2 ** 31),
                                   "g2": st.integers(0, 2 ** 31), "pre_scale": st.sampled_from([None, None, 0.0, 0.5, 1.0]), "detour": st.sampled_from([None, 0.0, 0.0, 0.3]),
                                   "post_scale": st.sampled_from([None, 1.0, 0.7]), "b_via": st.sampled_from([None, None, "deepcopy", "pickle"]),
-                                  "late": st.booleans()})
+                                  "late": st.booleans(), "factory": st.booleans()})
 
 
 @st.composite
